@@ -85,14 +85,25 @@ def oracle(text, impl):
     return base(text, impl) + counterfactual(text, impl)
 
 
+def extra(chk, st):
+    import p_c16
+    import p_dupadapt
+    p_dupadapt.stage(chk, "C15")
+    # failed registrations at the level of Generic (shared fds -> EEXIST): nothing changes, and the registration can be retried
+    p_c16.genlife(chk, st, prop="C15")
+
+
 def main(tier, seed):
     return seqcheck.run_seq_check("C15", tier, seed, PROFILES, oracle, 1200, 30000, p_seqprops.ASSUME + [
         "counterfactual stage: a top-level insert/enable/update/disable that returned an IO error is deleted and the real code re-run; every other "
         "source must behave identically (single-sub-source sources only; partial registration of larger composites is finding F11)"],
-        known_classifier=p_seqprops.classify, extra_front=lambda chk, st: __import__("p_dupadapt").stage(chk, "C15"))
+        known_classifier=p_seqprops.classify, extra_front=extra)
 
 
 def replay(path):
+    if "genlife case:" in open(path).read():
+        import p_c16
+        return p_c16.replay(path)
     if "dupadapt case" in open(path).read():
         import p_dupadapt
         return p_dupadapt.replay(path)
